@@ -96,10 +96,7 @@ Proof.
   - injection H as <- <-. rsplit; auto; apply Hs.
   - destruct (fire (detect st r) t) as [st1 os] eqn:Ef. injection H as <- <-.
     destruct (detect_frame st r) as (F1 & F2 & F3 & F4 & F5 & F6 & F7).
-    assert (HC' : Cap c (detect st r)).
-    { destruct HC as [Ho Hg Hpp]. constructor; rewrite ?F1; auto.
-      all: unfold detect; destruct (nth_error (rdrs st) r) as [rd|]; auto;
-        destruct (r_open rd); auto; destruct (r_bad rd); flds; auto. }
+    assert (HC' : Cap c (detect st r)) by (apply cap_detect, HC).
     assert (Hp' : pend (detect st r) base).
     { unfold pend in *. rewrite F1, F2, F4. exact Hp. }
     specialize (IH _ _ _ (inv_detect st r HI) HC' (simr_detect st tg r Hs) Hp' Ef).
@@ -420,11 +417,55 @@ Qed.
 Lemma simr_init : simr init [].
 Proof. split; [reflexivity|]. intros [|r] rd H; discriminate. Qed.
 
+(** ** The constructor's state, in closed form *)
+Lemma promote_ltb K : forall n x,
+  promote n (fun y => y <? K) x =
+  (Z.to_nat (Z.of_nat n - Z.min (Z.of_nat n) (Z.max 0 (K - x))), x + Z.min (Z.of_nat n) (Z.max 0 (K - x))).
+Proof.
+  induction n as [|n IH]; intros x.
+  - cbn [promote]. f_equal; lia.
+  - cbn [promote]. destruct (x <? K) eqn:E.
+    + apply Z.ltb_lt in E. rewrite IH. f_equal; lia.
+    + apply Z.ltb_ge in E. f_equal; lia.
+Qed.
+
+Lemma promote_false : forall n x, promote n (fun _ => false) x = (n, x).
+Proof. intros [|n] x; reflexivity. Qed.
+
+(** With the blocks beyond the configured capacity old+current+new quarantined
+    by the constructor, the monitor's initial boundary is the model's. *)
+Lemma init_of_facts c : wfq c ->
+  maxdet (init_of c) = mon_D0 c /\ rel (init_of c) = 0 /\ puts (init_of c) = [] /\ pcs (init_of c) = Idle
+  /\ rdrs (init_of c) = [].
+Proof.
+  intros (Hq0 & Hq1 & Hq2). unfold init_of, mon_D0, cap.
+  destruct (q_mut c) eqn:Em.
+  - rewrite (promote_ext (fun x => grow_new c 0 x) (fun y => y <? 1))
+      by (intros x; unfold grow_new; rewrite Em; reflexivity).
+    rewrite promote_ltb.
+    rewrite (promote_ext (grow_cur c) (fun y => y <? q_cur c))
+      by (intros x; unfold grow_cur; rewrite Em; reflexivity).
+    rewrite promote_ltb. flds. split; [|auto].
+    match goal with |- (if ?b then _ else _) = _ => destruct b eqn:E end;
+      [apply Z.ltb_lt in E|apply Z.ltb_ge in E]; lia.
+  - rewrite (promote_ext (fun x => grow_new c 0 x) (fun y => y <? q_cur c + q_new c))
+      by (intros x; unfold grow_new; rewrite Em; reflexivity).
+    rewrite promote_ltb.
+    rewrite (promote_ext (grow_cur c) (fun _ => false))
+      by (intros x; unfold grow_cur; rewrite Em; reflexivity).
+    rewrite promote_false. flds. split; [|auto].
+    match goal with |- (if ?b then _ else _) = _ => destruct b eqn:E end;
+      [apply Z.ltb_lt in E|apply Z.ltb_ge in E]; lia.
+Qed.
+
 Theorem mon08Q_silent_on_model_all inp :
   wfq (inp_cfg inp) -> mon08Q inp (run08Q inp) = [].
 Proof.
   intros Hw. unfold mon08Q, run08Q. cbn [sx_list]. rewrite map_map.
   rewrite (map_ext _ (fun x => x) dec_enc_oobs), map_id.
-  exact (mon_ops_silent (inp_cfg inp) Hw (inp_ops inp) init [] inv_init
-           (cap_init _ Hw) simr_init eq_refl).
+  destruct (init_of_facts (inp_cfg inp) Hw) as (E1 & E2 & E3 & E4 & E5).
+  pose proof (mon_ops_silent (inp_cfg inp) Hw (inp_ops inp) (init_of (inp_cfg inp)) []
+                (inv_init_of _ (proj1 Hw)) (cap_init_of _)) as H.
+  rewrite E1, E2, E3 in H. apply H; [|exact E4].
+  split; [rewrite E5; reflexivity|]. rewrite E5. intros [|r] rd Hn; discriminate.
 Qed.
